@@ -2,6 +2,8 @@ import Req.Driver.Proto
 import Req.Client.HeaderSort
 import Req.H2.Fields
 import Req.Driver.WireUtil
+import Req.H2.HeaderBlock
+import Req.Client.Resend
 /-! Driver lanes of C16. -/
 namespace Req.Driver.L.C16
 open Req.Proto
@@ -62,7 +64,108 @@ def laneFields : List String → String
     | _, _, _, _, _, _, _, _, _, _ => "bad-op"
   | _ => "bad-op"
 
+def showHFrame (f : Req.H2.HeaderBlock.HFrame) : String :=
+  (if f.cont then "C" else "H") ++ toString f.frag.length ++
+    (if f.endHeaders then "h" else "") ++ (if f.endStream then "s" else "") ++
+    (if f.prio then "p" else "")
+
+def showRecv : Req.H2.HeaderBlock.Recv → String
+  | .idle => "idle"
+  | .waiting acc _ => s!"waiting:{acc.length}"
+  | .delivered b es => s!"delivered:{b.length}:{if es then 1 else 0}"
+  | .error => "error"
+
+/-- `c16hframes <blockLen> <maxFrameSize> <prio 0|1> <endStream 0|1>` → the HEADERS / CONTINUATION
+frames `writeHeaders` emits for a block of that length (fragment length + flags each) and what a
+peer enforcing that frame size ends up with. -/
+def laneHFrames : List String → String
+  | [len, mf, pr, es] =>
+    match len.toNat?, mf.toNat?, Wire.decodeBool pr, Wire.decodeBool es with
+    | some len, some mf, some pr, some es =>
+      if mf ≤ 5 then "bad-op" else
+      let fs := Req.H2.HeaderBlock.writeHeaders es pr mf (List.replicate len 0)
+      (if fs.isEmpty then "-" else ",".intercalate (fs.map showHFrame)) ++ " " ++
+        showRecv (Req.H2.HeaderBlock.receive mf fs)
+    | _, _, _, _ => "bad-op"
+  | _ => "bad-op"
+
+def decodeKind (kind p : String) : Option Req.Resend.Kind :=
+  match kind, decodeHex p with
+  | "same", some _ => some .same
+  | "digest", some a => some (.digest a)
+  | "redir0", some ref => some (.redirect false ref)
+  | "redir1", some ref => some (.redirect true ref)
+  | _, _ => none
+
+def showWErr : Req.H1.WErr → String
+  | .nonAsciiHost => "err:outside"
+  | .invalidHostProxy => "err:hostproxy"
+  | .ctlInURI => "err:ctl"
+  | .contentLengthNilBody => "err:clnil"
+  | .bodyLength => "err:bodylen"
+
+/-- `c16resend <same|digest|redir0|redir1> <param> <disableCompression> <disableKeepAlives>
+<method> <rawurl> <host> <hdr1> <cl> <hasBody> <body> <close>`: the bytes on an HTTP/1.1 connection
+for a SECOND send whose header map derives from the FIRST request's header map `hdr1` by the given
+mechanism (`same` with the first request's own attributes = the first send itself); method, URL,
+Host, body are those of the request being written; the transport's extra headers are computed
+(`transportExtra`). Exact in normal mode, `Wire.showOrdered` in header-order mode. -/
+def laneResend : List String → String
+  | [kind, p, dc, dk, m, raw, host, hdr, cl, hb, body, close] =>
+    match decodeKind kind p, Wire.decodeBool dc, Wire.decodeBool dk, decodeHex m, decodeHex raw,
+          decodeHex host, Wire.decodeHdr hdr, decodeInt cl, Wire.decodeBool hb, Wire.decodeBody body,
+          Wire.decodeBool close with
+    | some kind, some dc, some dk, some m, some raw, some host, some hdr, some cl, some hb, some body,
+      some close =>
+      match Req.Url.parse raw with
+      | .error _ => "bad-op"
+      | .ok u =>
+        let r0 : Req.H1.WReq := { method := m, url := u, host := host,
+                                  header := Req.Resend.secondHeader kind hdr, contentLength := cl,
+                                  hasBody := hb, body := body, close := close }
+        let r := { r0 with extra := Req.Resend.transportExtra dc dk r0 }
+        match Req.H1.serializeH1 r with
+        | .error e => showWErr e
+        | .ok wire =>
+          let order := Req.H1.orderList r.header
+          if order.isEmpty then "ok " ++ Wire.showBlob wire else Wire.showOrdered wire order
+    | _, _, _, _, _, _, _, _, _, _, _ => "bad-op"
+  | _ => "bad-op"
+
+/-- `c16values <h2|h3> …` (arguments of `c16fields`) → for every header-map key whose lower-cased
+name has a single spelling in the map, sorted by name: the values of the fields of that name in
+ARRIVAL order (value order and multiplicity within a name; independent of the map iteration
+order). -/
+def laneValues : List String → String
+  | [fl, m, raw, host, hdr, cl, hb, nb, gz, lim] =>
+    let fl? : Option Req.H2.Flavor :=
+      if fl == "h2" then some .h2 else if fl == "h3" then some .h3 else none
+    let lim? : Option (Option Nat) := if lim == "-" then some none else lim.toNat?.map some
+    match fl?, decodeHex m, decodeHex raw, decodeHex host, Wire.decodeHdr hdr, decodeInt cl,
+          Wire.decodeBool hb, Wire.decodeBool nb, Wire.decodeBool gz, lim? with
+    | some fl, some m, some raw, some host, some hdr, some cl, some hb, some nb, some gz, some lim =>
+      match Req.Url.parse raw with
+      | .error _ => "bad-op"
+      | .ok u =>
+        let r : Req.H2.FReq := { method := m, url := u, host := host, header := hdr,
+                                 contentLength := cl, hasBody := hb, noBody := nb, addGzip := gz,
+                                 maxHeaderList := lim }
+        match Req.H2.fields fl r with
+        | .error e => showFErr e
+        | .ok fs =>
+          let lowers := hdr.map fun kv => Req.Ascii.lower kv.key
+          let names := (lowers.filter fun n => lowers.count n == 1).mergeSort Req.BStr.le
+          if names.isEmpty then "vals -" else
+          "vals " ++ ",".intercalate (names.map fun n =>
+            encodeHex n ++ "=" ++
+              ":".intercalate ((fs.filter fun f => f.1 == n).map fun f => encodeHex f.2))
+    | _, _, _, _, _, _, _, _, _, _ => "bad-op"
+  | _ => "bad-op"
+
 def lanes : List (String × (List String → String)) := [
+  ("c16values", laneValues),
+  ("c16hframes", laneHFrames),
+  ("c16resend", laneResend),
   ("sort", laneSort),
   ("c16fields", laneFields)
 ]
